@@ -238,4 +238,9 @@ theorem unmMembers_cons (L : Leaves) (k : String) (v : Json) (rest : List (Strin
       | (cases v <;> first | rfl | (simp only [bind, Except.bind, pure, Except.pure]; cases unmBlocks L _ <;> rfl))
       | (simp only [bind, Except.bind]; cases setLeaf L _ v a <;> rfl)
 
+/-- the members of an object in reversed document order -/
+def reverseMembers : Json → Json
+  | .obj ms => .obj ms.reverse
+  | j => j
+
 end ZV.CodecJson
